@@ -810,20 +810,22 @@ OP(cap_rec_tnaf) {
 	CAPREC("bn_rec_tnaf", ol, W(bn_rec_tnaf((int8_t *)o, &ol, B[0], u, m, w)));
 }
 /* the regular form is defined for scalars whose two reduced components are odd (the test suite draws scalars until
- * they are): in three of four instances the operand is stepped to the next such value */
+ * they are): in half of the instances the operand is stepped to the next such value */
 OP(cap_rec_rtnaf) {
 	size_t w = REC_W; int8_t u = ((B[6]->dp[0] >> 9) & 1) ? 1 : -1; size_t m = ((B[6]->dp[0] >> 10) & 1) ? 283 : 233;
 	int ok = 0;
 	bn_abs(R[1], B[0]);
 	if (bn_bits(R[1]) + 8 > (size_t)RLC_BN_BITS) bn_rsh(R[1], R[1], 16);
-	if ((B[6]->dp[0] >> 11) & 3) {
+	if ((B[6]->dp[0] >> 11) & 1) {
 		for (int i = 0; i < 16 && !ok; i++) {
 			bn_add_dig(R[1], R[1], 1);
 			bn_rec_tnaf_mod(R[2], R[3], R[1], u, m);
 			ok = !bn_is_even(R[2]) && !bn_is_even(R[3]);
 		}
 		if (!ok) { out_int(-4); return; }
-	}	/* else: whatever parity the components have - to be refused, not recoded with digits outside the tables */
+	} else if ((B[6]->dp[0] >> 13) & 1) {
+		w = 8;	/* whatever parity the components have - to be refused, not recoded with digits outside the tables (widest window: largest digits) */
+	}
 	CAPREC("bn_rec_rtnaf", ol, W(bn_rec_rtnaf((int8_t *)o, &ol, R[1], u, m, w)));
 }
 OP(rand_reseed) { W(rand_seed(msg, msg_len); rand_bytes(buf, 40)); out_bytes(buf, 40); }
